@@ -34,7 +34,7 @@ import nfc.tag
 import nfc.tag.tt4
 
 from vlib import isodep_card, rfcard, simchip, tagdev
-from vlib.engine import HarnessError, Leg, Violation, derive_seed, unexpected
+from vlib.engine import HarnessError, Leg, Violation, derive_seed, unexpected, twin_env
 
 PROPERTY = "C12"
 LEVEL = "fault_enumeration"
@@ -687,3 +687,10 @@ LEGS = [
              "also cuts to 4..40 byte) anywhere in the first 60 block "
              "exchanges; non-trivial as above."),
 ]
+
+# the same searches with every nfc logger enabled down to the lowest level
+# (code that only runs, or only evaluates its arguments, when logging is on)
+_byl = dict((lg.name, lg) for lg in LEGS)
+LEGS += [twin_env(_byl[n], "log", {"VERIF_LOG": "debug"}, quick=q, thorough=t,
+                  shards_quick=2)
+         for n, q, t in [('random', 300, 3000)] if n in _byl]
